@@ -97,7 +97,16 @@ def c15(ctx):
     ctx.gotest("tracer", "^TestVerifC15", race=True, timeout=3000)
 
 
+def c13(ctx):
+    ctx.gotest("refserver", "^TestVerifC13", race=False, timeout=3000)
+
+
 SPECS = {
+    "C13": {"fn": c13, "level": "exploration",
+            "technique": "runtime monitoring: the reference client's real wire-capture + trace + examineWireDetails chain observed on synthetic and real responses; spec-written independent encoders and the reference server's own encoders supply well-formed inputs, one-malformation-at-a-time generators and seeded structure-aware fuzzing supply bad ones",
+            "text": "Thousands of errors (all codes, hostile messages, details, metadata) are rendered as Connect error JSON, Connect end-stream, gRPC-Web trailer blocks and gRPC trailers by an independent spec encoder and by the reference server's own encoder functions, and pushed through the real capture/trace/examine chain: no feedback is allowed. Each malformation class the checks name is injected alone and must produce feedback. 10^4-10^5 mutated/random inputs must not panic.",
+            "note": "Messages with leading/trailing whitespace are excluded (HTTP field parsing trims them; gRPC does not escape 0x20) - a protocol limit; live wire output of the reference server is covered by C01/C02 feedback (any feedback line fails those runs).",
+            "assumptions": ["the spec encoder in harness/refserver/c13_wire_test.go follows the Connect and gRPC protocol documents"]},
     "C15": {"fn": c15, "level": "exploration",
             "technique": "runtime monitoring under the race detector: scripted inner net.Conn (every Read/Write result logged) around the real TracingHTTP2Conn; generated multi-stream HTTP/2 exchanges re-interleaved and re-partitioned, compared with an independent per-stream trace model; seeded structure-aware mutation and ordering faults for the no-crash/transparency clause",
             "text": "Well-formed exchanges (1-6 concurrent streams, HEADERS/CONTINUATION, DATA cutting envelopes anywhere, request/response trailers, RST_STREAM from either side, REFUSED_STREAM+retry, GOAWAY, shared HPACK state) are fed through the real connection tracer on client and server side under 4 schedules and random Read/Write partitions; each named stream must yield exactly one trace equal to the model (request line, own headers, messages in order, status, trailers, end/reset). 10^4-10^6 mutated, random and mis-ordered streams must never panic and every Read/Write must return exactly what the inner conn did.",
